@@ -113,6 +113,15 @@ func (cr *CarReader) HeaderSize() (uint64, error) {
 	return *cr.headerSize, nil
 }
 
+// notACleanEnd is for errors that occur inside a section, after its length has been read: the input
+// ending there means a cut file, which must not look like the clean end of the CAR (io.EOF) to the caller.
+func notACleanEnd(err error) error {
+	if errors.Is(err, io.EOF) {
+		return io.ErrUnexpectedEOF
+	}
+	return err
+}
+
 func ReadNodeInfoWithoutData(br *bufio.Reader) (cid.Cid, uint64, error) {
 	sectionLen, ll, err := ReadSectionLength(br)
 	if err != nil {
@@ -121,7 +130,7 @@ func ReadNodeInfoWithoutData(br *bufio.Reader) (cid.Cid, uint64, error) {
 
 	cidLen, c, err := cid.CidFromReader(br)
 	if err != nil {
-		return cid.Cid{}, 0, err
+		return cid.Cid{}, 0, notACleanEnd(err)
 	}
 
 	// Seek to the next section by skipping the block.
@@ -133,7 +142,7 @@ func ReadNodeInfoWithoutData(br *bufio.Reader) (cid.Cid, uint64, error) {
 
 	_, err = io.CopyN(io.Discard, br, remainingSectionLen)
 	if err != nil {
-		return cid.Cid{}, 0, err
+		return cid.Cid{}, 0, notACleanEnd(err)
 	}
 
 	return c, sectionLen + ll, nil
@@ -147,7 +156,7 @@ func ReadNodeInfoWithData(br *bufio.Reader) (cid.Cid, uint64, []byte, error) {
 
 	cidLen, c, err := cid.CidFromReader(br)
 	if err != nil {
-		return cid.Cid{}, 0, nil, fmt.Errorf("failed to read cid: %w", err)
+		return cid.Cid{}, 0, nil, fmt.Errorf("failed to read cid: %w", notACleanEnd(err))
 	}
 
 	// Seek to the next section by skipping the block.
@@ -160,7 +169,7 @@ func ReadNodeInfoWithData(br *bufio.Reader) (cid.Cid, uint64, []byte, error) {
 	buf := make([]byte, remainingSectionLen)
 	_, err = io.ReadFull(br, buf)
 	if err != nil {
-		return cid.Cid{}, 0, nil, fmt.Errorf("failed to read block: %w", err)
+		return cid.Cid{}, 0, nil, fmt.Errorf("failed to read block: %w", notACleanEnd(err))
 	}
 
 	return c, sectionLen + ll, buf, nil
